@@ -214,6 +214,7 @@ func streamC17(c *Ctx) {
 				}
 				return out, err
 			}
+			var pendingInter *Replay
 			for ri, r := range ranges {
 				// Range laws on the implementation
 				c.Evals++
@@ -234,23 +235,21 @@ func streamC17(c *Ctx) {
 						}
 					}
 				}
-				if ri%7 == 0 {
+				if ri%7 == 0 || pendingInter != nil {
 					r2 := ranges[g.pick(len(ranges))]
 					in := r.Intersect(r2)
-					mi := dr.Ask(J{"k": "rinter", "r": encRange(r), "r2": encRange(r2)})
-					if mi != showRangeGo(in) {
-						c.Unexplained(&Replay{Stream: "range", Case: []interface{}{J{"k": "rinter", "r": encRange(r), "r2": encRange(r2)}}, Expected: []string{mi}, Actual: []string{showRangeGo(in)}}, "correspondence K-C17/intersect")
-						tx.Rollback()
-						im.Destroy()
-						return
-					}
-					for _, v := range bounds {
+					for _, v := range append([]interface{}{r.Start, r.End, r2.Start, r2.End}, bounds...) {
 						if inRangeVal(r, v) && inRangeVal(r2, v) && !inRangeVal(in, v) {
 							c.Violation(&Replay{Stream: "range", Case: []interface{}{J{"k": "rinter", "r": encRange(r), "r2": encRange(r2)}, J{"v": encValue(v)}}, Note: "the intersection excludes a value contained in both ranges"})
 							tx.Rollback()
 							im.Destroy()
 							return
 						}
+					}
+					mi := dr.Ask(J{"k": "rinter", "r": encRange(r), "r2": encRange(r2)})
+					if mi != showRangeGo(in) && pendingInter == nil {
+						// the correspondence is broken; keep going to find a pair on which the property itself fails
+						pendingInter = &Replay{Stream: "range", Case: []interface{}{J{"k": "rinter", "r": encRange(r), "r2": encRange(r2)}}, Expected: []string{mi}, Actual: []string{showRangeGo(in)}}
 					}
 				}
 				for _, rev := range []bool{false, true} {
@@ -313,6 +312,12 @@ func streamC17(c *Ctx) {
 						return
 					}
 				}
+			}
+			if pendingInter != nil {
+				c.Unexplained(pendingInter, "correspondence K-C17/intersect")
+				tx.Rollback()
+				im.Destroy()
+				return
 			}
 			// full iteration
 			for _, rev := range []bool{false, true, false, true} {
@@ -497,6 +502,9 @@ func streamC15(c *Ctx) {
 		g := NewGen(c.Rng, dm)
 		h := NewHistGen(g, 2, 3)
 		lines := h.History(HistCfg{Ops: 25, QueriesPer: 2, Indexes: true, Dumps: true, Malformed: true, NoFresh: true})
+		if hN == 0 {
+			lines = bigIndexHistory(g, c.N(300, 2000))
+		}
 		var first *HistoryOutcome
 		for bi, im := range impls {
 			o := runHistory(dr, im, lines, HistOpts{})
